@@ -25,6 +25,9 @@ case = {
   'big':     bool                        reply messages are 100000 bytes, the client advertises 1 MiB per stream
                                          but keeps the default 65535-byte connection window and returns credit as
                                          it consumes (connection-level WINDOW_UPDATE): the reply needs that credit
+  'codec':   None | 'json' | ...         content subtype of the server's codec (None: 'proto', like ProtoCodec); a
+                                         server with another codec speaks application/grpc+<subtype> and must not
+                                         accept the bare application/grpc (which means +proto)
   'hooks_await': bool                    listeners on RecvRequest / RecvMessage / SendInitialMetadata /
                                          SendMessage / SendTrailingMetadata really suspend (await asyncio.sleep(0))
 }
@@ -270,7 +273,12 @@ def _run(case, loop):
         finally:
             st['finished'] = True
 
-    se = wire.ServerEnd(loop, [Service('v.S', {'M': (handler_outer, case['card'])})])
+    codec = None
+    if case.get('codec') and case['codec'] != 'proto':
+        from harness.svc import RawCodec
+        codec = type('RawCodec_' + ''.join(ch for ch in case['codec'] if ch.isalnum()), (RawCodec,),
+                     {'__content_subtype__': case['codec']})()
+    se = wire.ServerEnd(loop, [Service('v.S', {'M': (handler_outer, case['card'])})], codec=codec)
     box['se'] = se
     if case.get('big'):
         # the client: 1 MiB per stream, the default 65535 bytes per connection, credit returned as it is consumed
